@@ -4,6 +4,7 @@ the generated `Gen.days` table (definition order = iteration order of the `Days`
 -/
 import Switcher.Model.Py
 import Switcher.Model.Tools
+import Switcher.Model.Messages
 import Switcher.Gen.Tables
 import Switcher.Gen.Guards
 namespace Model
@@ -81,5 +82,90 @@ def timeToHexFixed (off now : Int) (s : List Char) : Py (List Char) := do
   let t := day * 86400 + 3600 * h + 60 * m - off
   let b ← packLE32 t
   pure (hexlify b)
+
+/-- `hexadecimale_timestamp_to_localtime` on a host whose zone is a fixed UTC offset: `%H:%M` of the local time -/
+def hexToLocalFixed (off : Int) (hexTs : List Char) : Py (List Char) := do
+  let n ← pyIntHex (swap32 hexTs)
+  let w : Int := (n : Int) + off
+  pure (dec2 ((w % 86400) / 3600).toNat ++ [':'] ++ dec2 ((w % 3600) / 60).toNat)
+
+/-- weekday (Monday = 0) of the local date of wall-clock second `w` -/
+def weekdayOfWall (w : Int) : Nat := ((w / 86400 + 3) % 7).toNat
+
+/-- minute of the day of wall-clock second `w` -/
+def minuteOfWall (w : Int) : Nat := ((w % 86400) / 60).toNat
+
+def insertSorted (x : Nat) : List Nat → List Nat
+  | [] => [x]
+  | y :: ys => if x ≤ y then x :: y :: ys else y :: insertSorted x ys
+
+def sortNats (l : List Nat) : List Nat := l.foldr insertSorted []
+
+/-- which day `pretty_next_run` announces: 0 = today, 1 = tomorrow, 2 + d = "next <weekday d>" -/
+def nextRunCode (cur : Nat) (days : List Nat) (ahead : Bool) : Nat :=
+  if days.isEmpty then 0
+  else if days.contains cur && ahead then 0
+  else
+    let ds := sortNats days
+    let last := ds.getLast?.getD 0
+    let nxt := if cur ≥ last then ds.headD 0 else ((ds.filter (fun d => d > cur)).headD 0)
+    if nxt = cur + 1 ∨ (nxt = dayWeekday 0 ∧ cur = dayWeekday 6) then 1 else 2 + nxt
+
+/-- `pretty_next_run(start_time, days)` at local wall-clock second `nowWall`; `days` are indices into `Days` -/
+def prettyNextRun (nowWall : Int) (start : List Char) (days : List Nat) : Py (List Char) :=
+  if days.isEmpty then pure (cs!"Due today at " ++ start)
+  else
+    match parseHM start with
+    | none => throw .valueError
+    | some (h, m) =>
+      let cur := weekdayOfWall nowWall
+      let ahead := decide (minuteOfWall nowWall < 60 * h + m)
+      let code := nextRunCode cur (days.map dayWeekday) ahead
+      if code = 0 then pure (cs!"Due today at " ++ start)
+      else if code = 1 then pure (cs!"Due tomorrow at " ++ start)
+      else
+        -- weekdays = dict(map(lambda d: (d.weekday, d), Days)); weekdays[next].value
+        let nm := ((List.range Gen.days.length).find? (fun i => dayWeekday i == code - 2)).map dayName
+        match nm with
+        | some n => pure (cs!"Due next " ++ n.toList ++ cs!" at " ++ start)
+        | none => throw .keyError
+
+/-- a `SwitcherSchedule` -/
+structure SchedRec where
+  id : Nat
+  recurring : Bool
+  days : List Nat
+  start : List Char
+  stop : List Char
+  duration : List Char
+  display : List Char
+deriving Repr, DecidableEq
+
+/-- `textwrap.wrap(s, 32)` on text without white space: consecutive chunks of 32 characters -/
+def wrap32 : (fuel : Nat) → List Char → List (List Char)
+  | 0, _ => []
+  | _, [] => []
+  | f + 1, s => s.take 32 :: wrap32 f (s.drop 32)
+
+/-- `ScheduleParser` getters + `SwitcherSchedule.__post_init__` on one 32-nibble record -/
+def parseRecord (off nowWall : Int) (s : List Char) : Py SchedRec := do
+  let id ← pyIntHex (slice s 0 2)
+  let recurring := slice s 4 6 != cs!"00"
+  let days ← if recurring then do
+      let n ← pyIntHex (slice s 4 6)
+      bitSummaryToDays n
+    else pure []
+  let start ← hexToLocalFixed off (slice s 8 16)
+  let stop ← hexToLocalFixed off (slice s 16 24)
+  let duration ← calcDuration start stop
+  let display ← prettyNextRun nowWall start days
+  pure { id, recurring, days, start, stop, duration, display }
+
+/-- `get_schedules(message)`: records keyed by id, the first record with an id wins -/
+def getSchedules (off nowWall : Int) (message : List Nat) : Py (List SchedRec) := do
+  let h := hexlify message
+  let data := (h.drop 90).take (h.length - 90 - 8)          -- `[90:-8]`
+  let recs ← (wrap32 (data.length + 1) data).mapM (parseRecord off nowWall)
+  pure (recs.foldl (fun acc r => if acc.any (·.id == r.id) then acc else acc ++ [r]) [])
 
 end Model
